@@ -1,6 +1,9 @@
 CONSTANTS
   Dev = {}
   MaxOps = 4
+  MaxViewOps = 4
+  ManyViews = FALSE
 SPECIFICATION MCSpec
 INVARIANT EmitOrders
+INVARIANT NoUndecided
 CHECK_DEADLOCK FALSE
